@@ -1,10 +1,10 @@
 SPECIFICATION Spec
 CONSTANTS
   GuardReserved = TRUE
-  MaxSegs = 2
-  MaxRecs = 2
-  MaxPath = 5
-  PathBytes = {97, 47, 58, 42, 35}
+  MaxSegs = 1
+  MaxRecs = 3
+  MaxPath = 4
+  PathBytes = {97, 98, 47, 58, 42, 35, 61}
   WithRestconf = TRUE
 INVARIANTS PropertyHolds OrderIndependent
 CHECK_DEADLOCK FALSE
